@@ -6,9 +6,9 @@ package main
 import (
 	"fmt"
 	"go/token"
-	"strconv"
 	"go/types"
 	"sort"
+	"strconv"
 	"strings"
 
 	"golang.org/x/tools/go/ssa"
@@ -645,7 +645,170 @@ func valuesLength(c *Ctx, ct *types.Named, fn *ssa.Function, sizeTerm *Term, dep
 			}
 		}
 	}
-	return Undecided, fmt.Sprintf("result of %s is neither make([]T, n), slices.Clone(F) nor a forwarded Values()/Keys()", p.FuncKey(fn))
+	if ok, facts := appendPerRound(c, ct, fn); ok {
+		return Discharged, facts
+	}
+	return Undecided, fmt.Sprintf("result of %s is neither make([]T, n), slices.Clone(F), a forwarded Values()/Keys() nor one append per round of a loop over the receiver's own content", p.FuncKey(fn))
+}
+
+// appendPerRound recognises the other common way of building Values()/Keys(): an initially empty slice to which every
+// round of one loop over the receiver's own content (range over a field of the receiver, or the receiver's own iterator —
+// also through Each) appends exactly one element; the slice is returned when the loop is exhausted. Its length is the
+// number of elements the iteration visits.
+func appendPerRound(c *Ctx, ct *types.Named, fn *ssa.Function) (bool, string) {
+	p := c.p
+	gc := c.GCWith(fn, BuildOpts{Tag: "R12f", Inline: func(callee *ssa.Function) bool {
+		rt := recvNamed(callee)
+		return rt != nil && p.TypeKey(rt) == p.TypeKey(ct) && fnName(callee) == "Each"
+	}})
+	if gc.Undecided != "" {
+		return false, ""
+	}
+	// the accumulator: a loop-carried value φ:k.j initialised with make(_, 0, _), or a local cell
+	var entry *GC
+	for _, g := range gc.GCs {
+		if g.From == 0 {
+			if entry != nil {
+				return false, ""
+			}
+			entry = g
+		}
+	}
+	if entry == nil || entry.Exit.Op != "goto" {
+		return false, ""
+	}
+	k := entry.Exit.Leaf
+	isEmptyMake := func(t *Term) bool {
+		if t.Op != "makeslice" || len(t.Args) != 2 {
+			return false
+		}
+		z, ok := t.Args[0].constInt()
+		return ok && z == 0
+	}
+	acc := ""     // how a round reads the accumulator
+	carried := -1 // index of the φ, or -1 for a cell
+	for j, a := range entry.Exit.Args {
+		if isEmptyMake(a) {
+			if acc != "" {
+				return false, ""
+			}
+			acc, carried = "φ:"+k+"."+itoa(j), j
+		}
+	}
+	for _, ef := range entry.Effects {
+		switch {
+		case isStore(ef) && ef.Args[0].Op == "new" && isEmptyMake(ef.Args[1]):
+			if acc != "" {
+				return false, ""
+			}
+			acc = "(load " + ef.Args[0].String() + ")"
+		case isStore(ef) && ef.Args[0].Op == "new":
+		default:
+			return false, ""
+		}
+	}
+	if acc == "" {
+		return false, ""
+	}
+	nstep, ndone := 0, 0
+	driver := ""
+	for _, g := range gc.GCs {
+		if g == entry {
+			continue
+		}
+		if strconv.Itoa(g.From) != k || len(g.Effects) == 0 {
+			return false, ""
+		}
+		first := g.Effects[0]
+		var stepRes string
+		switch {
+		case first.Op == "advance" && first.Args[0].Op == "range":
+			// range over a field of the receiver
+			src := first.Args[0].Args[0]
+			if !(src.Op == "load" && src.Args[0].Op == "fa" && src.Args[0].Args[0].String() == "p:0") {
+				return false, ""
+			}
+			stepRes = noEpoch(nodeL("ext", "0", nodeL("next", "", first.Args[0])))
+		case first.Op == "do" && strings.HasSuffix(first.Leaf, ").Next") && len(first.Args) == 1:
+			if op, ok := ownIteratorTerm(gc, first.Args[0]); !ok || op != "0" {
+				return false, ""
+			}
+			stepRes = noEpoch(nodeL("res", "", first))
+		default:
+			return false, ""
+		}
+		if driver == "" {
+			driver = noEpoch(first)
+		} else if driver != noEpoch(first) {
+			return false, ""
+		}
+		stepped := 0
+		for _, a := range g.Guards {
+			x, pol := a, true
+			if x.Op == "!" {
+				x, pol = x.Args[0], false
+			}
+			if noEpoch(x) == stepRes {
+				if pol {
+					stepped = 1
+				} else {
+					stepped = -1
+				}
+			}
+		}
+		switch stepped {
+		case -1:
+			ndone++
+			if len(g.Effects) != 1 || g.Exit.Op != "return" || len(g.Exit.Args) != 1 || noEpoch(g.Exit.Args[0]) != acc {
+				return false, ""
+			}
+		case 1:
+			nstep++
+			// exactly one append of exactly one element to the accumulator, carried on
+			var app *Term
+			for i, ef := range g.Effects[1:] {
+				switch {
+				case ef.Op == "builtin" && ef.Leaf == "append":
+					if app != nil || len(ef.Args) != 2 || noEpoch(ef.Args[0]) != acc || varargElem(g.Effects, i+1, ef.Args[1]) == nil {
+						return false, ""
+					}
+					app = ef
+				case isStore(ef) && ef.Args[0].Op == "ia" && ef.Args[0].Args[0].Op == "new":
+				case isStore(ef) && ef.Args[0].Op == "new" && carried < 0 && app != nil && ef.Args[1].Op == "res" && ef.Args[1].Args[0].String() == app.String():
+				default:
+					return false, ""
+				}
+			}
+			if app == nil || g.Exit.Op != "goto" || g.Exit.Leaf != k {
+				return false, ""
+			}
+			if carried >= 0 {
+				if carried >= len(g.Exit.Args) {
+					return false, ""
+				}
+				nx := g.Exit.Args[carried]
+				if nx.Op != "res" || nx.Args[0].String() != app.String() {
+					return false, ""
+				}
+			} else {
+				stored := false
+				for _, ef := range g.Effects {
+					if isStore(ef) && "(load "+ef.Args[0].String()+")" == acc && ef.Args[1].Op == "res" && ef.Args[1].Args[0].String() == app.String() {
+						stored = true
+					}
+				}
+				if !stored {
+					return false, ""
+				}
+			}
+		default:
+			return false, ""
+		}
+	}
+	if nstep != 1 || ndone != 1 {
+		return false, ""
+	}
+	return true, "starts empty and every round of the loop over the receiver's own content (" + trunc(driver, 120) + ") appends exactly one element; returned when the loop is exhausted"
 }
 
 // ---- C15 extras: Clear, configuration fields, String() ----
@@ -881,7 +1044,6 @@ func fieldByPinnedName(ct *types.Named, n string) *types.Var {
 	}
 	return nil
 }
-
 
 // startOfTerm: the constant a string term starts with (through concatenation, TrimRight and loop-carried φs).
 func startOfTerm(gc *GCNF, t *Term, depth int) (string, bool) {
